@@ -53,6 +53,9 @@ def make (spec0):
         elif kind == 'a':
             a1 = float (np.round (rng.uniform (-360, 360), 1))
             sp = float (np.round (rng.uniform (5, 360), 1)) * (1 if rng.random () < 0.8 else -1)
+            if rng.random () < 0.15:
+                sp = 360.0 * (1 if rng.random () < 0.8 else -1)         # closed circle from any start angle
+                a1 = float (np.round (a1))
             geo.append (dict ( k = 'a', n = int (rng.integers (3, 40)), radius = float (10 ** rng.uniform (-1, 1.5))
                              , a1 = a1, a2 = a1 + sp, r = 1e-3, tag = tag))
         else:
@@ -83,6 +86,16 @@ def make (spec0):
             tr.append (['rotate', float (key), ang, tag])
         else:
             tr.append (['translate', float (key), [float (np.round (x, 3)) for x in rng.uniform (-50, 50, 3)], tag])
+    # requests of one kind under one key (they are applied in the order they are given)
+    rk = np.random.default_rng ([spec0 ['seed'], 131, spec0 ['i']])
+    if len (tr) >= 2 and rk.random () < 0.3:
+        kinds = [t [0] for t in tr]
+        for kind in ('translate', 'rotate'):
+            idx = [i for i, k in enumerate (kinds) if k == kind]
+            if len (idx) >= 2:
+                tr [idx [1]][1] = tr [idx [0]][1]
+                # equal keys keep the order of the options: put the pair next to each other in that order
+                break
     sc = []
     for k in range (int (rng.choice ([0, 0, 1, 2]))):
         sc.append ([float (10 ** rng.uniform (-2, 2)), None if rng.random () < 0.6 else int (rng.integers (1, nobj + 1))])
